@@ -27,7 +27,8 @@ def sparql_str(value):
     Returns a value as escaped content of a double quoted SPARQL string literal.
     """
     value = str(value)
-    for char, esc in [("\\", "\\\\"), ("\"", "\\\""), ("\n", "\\n"), ("\r", "\\r")]:
+    for char, esc in [("\\", "\\\\"), ("\"", "\\\""), ("\n", "\\n"), ("\r", "\\r"),
+                      ("\t", "\\t")]:
         value = value.replace(char, esc)
     return value
 
